@@ -259,6 +259,8 @@ def cases(ctx):
         yield "random", m
     for m in twin_cases():
         yield "twins", m
+    for m in gen.big_models():
+        yield "big", m
     # 4. models with out-of-range cardinalities (queries are total; outside the C03 hypothesis)
     for i in range(60 if tier == "quick" else 600):
         yield "badcards", g.model(g.rng.randint(2, 9), kinds=("mandatory", "optional", "bad", "or"))
